@@ -161,7 +161,7 @@ SURROGATES = ["DUMMY", "ET", "RF", "GP"]
 ACQS = ["UCB", "EI", "PI", "MES", "gp_hedge"]
 STRATEGIES = ["cl_min", "cl_mean", "cl_max", "topk", "boltzmann", "qUCB", "qUCBd"]
 INITS = ["random", "sobol", "lhs", "halton", "hammersly", "grid"]
-SPACES = ["flat_real", "flat_mixed", "flat_many", "cond", "forbid"]
+SPACES = ["flat_real", "flat_mixed", "flat_many", "cond", "forbid", "discrete"]
 
 
 def cfg_of(case):
@@ -189,6 +189,8 @@ def describe(case):
             d.append("strategy=" + kw.get("multi_point_strategy", "cl_max"))
     if case.get("fail_mod"):
         d.append("with_failures")
+    if case.get("fail_region"):
+        d += ["fails_around_optimum", "filter_failures=" + kw.get("filter_failures", "min")]
     return d
 
 
@@ -204,7 +206,7 @@ def sig_of(case, clause, **extra):
 
 # ---------------------------------------------------------------------------------------------- children
 def spec_of(case, seed, perturb):
-    s = {k: case[k] for k in ("search", "space", "kwargs", "nobj", "fail_mod", "mode", "evals", "batches") if k in case}
+    s = {k: case[k] for k in ("search", "space", "kwargs", "nobj", "fail_mod", "fail_region", "mode", "evals", "batches") if k in case}
     s.update(seed=seed, perturb=perturb)
     return s
 
@@ -336,6 +338,22 @@ def quick_catalogue(rng):
         base_case(rng, space="forbid", fail_mod=3, kwargs=K(surrogate_model="RF", acq_func="gp_hedge", initial_point_generator="lhs")),
         base_case(rng, search="Random", space="flat_mixed", mode="ask", batches=[3, 2, 4]),
         base_case(rng, space="flat_many", kwargs=K(acq_func="EId", initial_point_generator="halton")),
+    ] + stress_catalogue(rng)
+
+
+def stress_catalogue(rng):
+    """Configurations that reach the rarely executed paths: a run-function failing around the optimum (so model-based suggestions fail: the
+    filter_failures paths, Optimizer.update_next after an all-failed batch with 'ignore'), and a small fully discrete space with a string
+    categorical (every candidate batch contains duplicates / already sampled points: Optimizer._filter_duplicated really filters)."""
+    B = [2, 2, 2, 2, 2, 2, 2]
+    return [
+        base_case(rng, space="flat_real", fail_region=0.4, evals=14, kwargs=K(acq_func="UCBd", filter_failures="ignore")),
+        base_case(rng, space="cond", fail_region=0.4, evals=14, kwargs=K(acq_func="UCBd", filter_failures="ignore")),
+        base_case(rng, space="flat_real", fail_region=0.6, mode="ask", batches=B, kwargs=K(acq_func="UCBd", filter_failures="ignore", multi_point_strategy="qUCB")),
+        base_case(rng, space="flat_mixed", fail_region=0.6, mode="ask", batches=B, kwargs=K(acq_func="UCB", filter_failures="mean", multi_point_strategy="cl_max")),
+        base_case(rng, space="flat_mixed", fail_region=0.4, evals=12, kwargs=K(surrogate_model="RF", acq_func="EI", filter_failures="min")),
+        base_case(rng, space="discrete", evals=12, kwargs=K(acq_func="UCBd")),
+        base_case(rng, space="discrete", mode="ask", batches=[2, 3, 2, 3, 2], kwargs=K(surrogate_model="DUMMY", acq_func="UCB", multi_point_strategy="cl_max")),
     ]
 
 
@@ -356,6 +374,9 @@ def random_case(rng, surrogates=("DUMMY", "ET", "RF"), search=None):
         acqs = ["UCB", "UCBd"]
     kw = K(surrogate_model=sm, acq_func=rng.choice(acqs), initial_point_generator=rng.choice(INITS), n_initial_points=rng.randrange(3, 6), n_points=rng.choice([32, 64, 128]))
     c = dict(space="flat_real" if sm == "GP" else space, kwargs=kw, nobj=rng.choice([1, 1, 1, 2, 3]), fail_mod=rng.choice([0, 0, 0, 3, 5]))
+    if rng.random() < 0.3:
+        c.update(fail_region=rng.choice([0.3, 0.4, 0.6]), fail_mod=0)
+        kw["filter_failures"] = rng.choice(["ignore", "ignore", "mean", "min"])
     if rng.random() < 0.4:
         kw["multi_point_strategy"] = rng.choice(["cl_min", "cl_mean", "cl_max", "qUCB", "qUCBd", "topk", "boltzmann"] if sm != "GP" else ["cl_min", "cl_max", "qUCB"])
         c.update(mode="ask", batches=[rng.randrange(1, 4) for _ in range(5)])
@@ -363,7 +384,7 @@ def random_case(rng, surrogates=("DUMMY", "ET", "RF"), search=None):
         c.update(evals=rng.randrange(8, 14))
     if c["nobj"] > 1:
         kw["moo_scalarization_strategy"] = rng.choice(["Chebyshev", "Linear", "PBI", "AugChebyshev", "Quadratic"])
-    if rng.random() < 0.2:
+    if rng.random() < 0.2 and "filter_failures" not in kw:
         kw["filter_failures"] = rng.choice(["mean", "min", "ignore"])
     return base_case(rng, **c)
 
@@ -371,29 +392,56 @@ def random_case(rng, surrogates=("DUMMY", "ET", "RF"), search=None):
 KNOWN_KEYS = ("S_MesRvs",)   # F09: the one reachable unseeded site of the pinned tree
 
 
+def probes(rng):
+    """(tags, case): one representative per way of reaching code; the tags are matched against the text (function, callee, guard) of a call
+    site that the static check rejects, so that the search for a differing pair starts with the configurations that execute it."""
+    B = [2, 2, 2, 2, 2, 2, 2]
+    return [
+        (["update_next", "fail", "ignore", "cbo._tell", "opt_y"], base_case(rng, space="flat_real", fail_region=0.4, evals=14, kwargs=K(acq_func="UCBd", filter_failures="ignore"))),
+        (["update_next", "fail", "ignore", "config_space"], base_case(rng, space="cond", fail_region=0.4, evals=14, kwargs=K(acq_func="UCBd", filter_failures="ignore"))),
+        (["duplicat", "sampled", "filter", "categor"], base_case(rng, space="discrete", evals=12, kwargs=K(acq_func="UCBd"))),
+        (["duplicat", "sampled", "filter", "cl_", "copy", "optimizer.ask"], base_case(rng, space="discrete", mode="ask", batches=[2, 3, 2, 3, 2], kwargs=K(surrogate_model="DUMMY", acq_func="UCB", multi_point_strategy="cl_max"))),
+        ([], base_case(rng, kwargs=K(acq_func="UCBd"), evals=12)),
+        (["config_space", "cond", "sample_configuration"], base_case(rng, space="cond", kwargs=K(surrogate_model="RF", acq_func="EI"), evals=12)),
+        (["optimizer.ask", "copy", "cl_", "lie"], base_case(rng, mode="ask", batches=[2, 3, 2, 3, 2], kwargs=K(acq_func="UCB", multi_point_strategy="cl_max"))),
+        (["qlcb", "qucb", "exponential", "fail", "filter_failures"], base_case(rng, space="flat_real", fail_region=0.6, mode="ask", batches=B, kwargs=K(acq_func="UCBd", filter_failures="ignore", multi_point_strategy="qUCB"))),
+        (["fail", "filter_failures", "mean"], base_case(rng, space="flat_mixed", fail_region=0.6, mode="ask", batches=B, kwargs=K(acq_func="UCB", filter_failures="mean", multi_point_strategy="cl_max"))),
+        (["moo", "scalar", "weight"], base_case(rng, nobj=2, kwargs=K(acq_func="PI"), evals=12)),
+        (["boltzmann", "topk", "_last_x", "multinomial"], base_case(rng, mode="ask", batches=[2, 3, 2, 3], kwargs=K(acq_func="UCB", multi_point_strategy="boltzmann"))),
+        (["gp_hedge", "gains", "multinomial"], base_case(rng, kwargs=K(acq_func="gp_hedge"), evals=12)),
+        (["mes", "acquisition"], base_case(rng, kwargs=K(acq_func="MES", n_initial_points=3), evals=16)),
+        (["initial_point", "generate", "sampler"], base_case(rng, kwargs=K(acq_func="UCB", initial_point_generator="lhs"), evals=10)),
+        (["randomsearch", "config_space"], base_case(rng, search="Random", space="cond", evals=10)),
+        (["randomsearch"], base_case(rng, search="Random", space="flat_many", evals=10)),
+        (["regularizedevolution", "population"], base_case(rng, search="RegEvo", space="flat_many", evals=16, kwargs=dict(population_size=5, sample_size=2))),
+        (["regularizedevolution", "active", "config_space"], base_case(rng, search="RegEvo", space="cond", evals=16, kwargs=dict(population_size=5, sample_size=2))),
+    ]
+
+
 def targeted_classes(rng):
-    """Classes that reach a call site which is not fed by the seeded stream (per the extracted model on the generated sites), other than the
-    known F09 site: a static proof obligation is broken - concentrate the dynamic search there."""
+    """Configurations that reach a call site which the static check rejects (per the extracted model on the generated sites: an RNG site not
+    fed by the seeded stream, or an environment read that flows into the search) - a proof obligation is broken: the dynamic search starts there.
+    Returned in the order of how well a probe's tags match the text of the rejected sites."""
     a = analysis()
     try:
         m = model()
-        hits, out = [], []
-        probes = [base_case(rng, kwargs=K(acq_func="UCBd"), evals=12), base_case(rng, space="cond", kwargs=K(surrogate_model="RF", acq_func="EI"), evals=12),
-                  base_case(rng, mode="ask", batches=[2, 3, 2, 3, 2], kwargs=K(acq_func="UCB", multi_point_strategy="cl_max")),
-                  base_case(rng, nobj=2, kwargs=K(acq_func="PI"), evals=12),
-                  base_case(rng, search="Random", space="cond", evals=10), base_case(rng, search="Random", space="flat_many", evals=10),
-                  base_case(rng, search="RegEvo", space="flat_many", evals=16, kwargs=dict(population_size=5, sample_size=2)),
-                  base_case(rng, search="RegEvo", space="cond", evals=16, kwargs=dict(population_size=5, sample_size=2))]
+        pr = probes(rng)
         if not a["ok"]:
-            return probes[:5], ["translator failed closed: " + a["reason"]]   # unknown shape somewhere: every class is a target
-        known = {a["consts"][k] for k in KNOWN_KEYS}
-        for c in probes:
-            bad = [i for i in m.call(F_BAD, model_args(c)) if a["rng_sites"][i]["num"][1] not in known]
-            env_bad = not m.call(F_ENV_OK, [a.get("world", [True]), cfg_of(c), [s["num"] for s in a["env_sites"]]]) and c["search"] != "RegEvo"
-            if bad or env_bad:
-                out.append(c)
-                hits += ["%s:%d %s [%s]" % (a["rng_sites"][i]["file"], a["rng_sites"][i]["line"], a["rng_sites"][i]["callee"], a["rng_sites"][i]["cls"]) for i in bad]
-        return out, sorted(set(hits))
+            return [c for _, c in pr[:6]], ["translator failed closed: " + a["reason"]]   # unknown shape somewhere: every class is a target
+        cs = a["consts"]
+        known = {cs[k] for k in KNOWN_KEYS}
+        old_env = {cs["S_SdvSetOrder"], cs["S_RegevoSetOrder"]}
+        hits, scored = [], []
+        for n, (tags, c) in enumerate(pr):
+            bad = [a["rng_sites"][i] for i in m.call(F_BAD, model_args(c)) if a["rng_sites"][i]["num"][1] not in known]
+            ebad = []
+            if not m.call(F_ENV_OK, [a.get("world", [True]), cfg_of(c), [s["num"] for s in a["env_sites"]]]):
+                ebad = [s for s in a["env_sites"] if s["flow"] == "Flows" and s["num"][1] not in old_env]
+            if bad or ebad:
+                text = " ".join("%s %s %s %s" % (s["file"], s["func"], s["callee"], s["guard"]) for s in bad + ebad).lower()
+                scored.append((-sum(1 for t in tags if t in text), n, c))
+                hits += ["%s:%d %s %s" % (s["file"], s["line"], s["func"], s["callee"]) for s in bad + ebad]
+        return [c for _, _, c in sorted(scored, key=lambda x: x[:2])], sorted(set(hits))
     except Exception:
         return [], []
 
@@ -401,7 +449,7 @@ def targeted_classes(rng):
 def gen_pairs(rng, tier):
     tgt, _ = targeted_classes(rng)
     # three seeds per targeted class: a global draw need not change the proposals of every run
-    for c in tgt[:5]:
+    for c in tgt[:6]:
         for _ in range(3 if tier != "quick" else 2):
             c2 = dict(c)
             s = rng.randrange(1, 10**6)
@@ -441,6 +489,8 @@ def shrink_pair(case):
         yield dict(case, nobj=1, kwargs={k: v for k, v in case["kwargs"].items() if k != "moo_scalarization_strategy"})
     if case.get("fail_mod"):
         yield dict(case, fail_mod=0)
+    if case.get("fail_region"):
+        yield dict(case, fail_region=0.0)
     if case["space"] != "flat_real":
         yield dict(case, space="flat_real")
     kw = case.get("kwargs", {})
@@ -560,6 +610,10 @@ def check_trace(case):
 def gen_trace(rng, tier):
     n = 40 if tier == "thorough" else 10
     cat = quick_catalogue(rng)
+    if tier != "thorough":   # the usual classes plus three of the stress configurations (failing run-function, discrete space)
+        st = stress_catalogue(rng)
+        cat = cat[:8] + [st[0], st[1], st[5]]
+        n = len(cat)
     for c in cat[:n]:
         yield dict(c, evals=min(c.get("evals", 9), 10)) if "evals" in c else c
     for _ in range(max(0, n - len(cat))):
